@@ -172,7 +172,7 @@ func propC11(c *Ctx) {
 	c.Rule("R11.6", "every log is attached to the block and transaction named by its own blockNumber / transactionIndex (block_num, block_hash, tx_hash of a row are those of the log's own block)", 2)
 	checkLogsGrouping(c, "R11.6")
 
-	c.Rule("R11.7", "an indexed input is read from the topic at its own position among ALL indexed inputs of the event", 4)
+	c.Rule("R11.7", "an indexed input is read from the topic at its own position among ALL indexed inputs of the event", 3)
 	{
 		pl := w.Fn("dig", "Integration.processLog")
 		fTopics := w.Field("eth", "Log", "Topics")
@@ -201,11 +201,53 @@ func propC11(c *Ctx) {
 		if n == 0 {
 			c.Violation("R11.7", "processLog/topic-reads", pl.Pos(), "no topic read found")
 		}
-		// coldef.topic is written only in setCols, from Event.topicIndex(input.Name) of the same input
+		// coldef.topic comes from a computation over ALL inputs of the event that looks at
+		// Indexed and at nothing that depends on what the user selected: whatever functions
+		// of dig.Event produce the stored value (a per-name function, a map built once, …)
 		if fTopic != nil {
-			ti := w.FnOpt("dig", "Event.topicIndex")
+			fInputs := w.Field("dig", "Event", "Inputs")
+			fIndexed := w.Field("dig", "Input", "Indexed")
+			fColumn := w.Field("dig", "Input", "Column")
 			var bad []string
 			cnt := 0
+			srcFns := map[*ssa.Function]bool{}
+			keyedByName := true
+			var origins func(v ssa.Value, d int)
+			origins = func(v ssa.Value, d int) {
+				v = stripConv(v)
+				if d > 6 {
+					return
+				}
+				switch x := v.(type) {
+				case *ssa.Phi:
+					for _, e := range x.Edges {
+						origins(e, d+1)
+					}
+				case *ssa.Extract:
+					origins(x.Tuple, d+1)
+				case *ssa.Lookup:
+					if _, ch := fieldChain(x.Index); len(ch) == 0 || ch[len(ch)-1].Name() != "Name" {
+						keyedByName = false
+					}
+					origins(x.X, d+1)
+				case *ssa.UnOp:
+					if al, ok := x.X.(*ssa.Alloc); ok {
+						if cv := cellValue(al); cv != nil {
+							origins(cv, d+1)
+						}
+					}
+				case *ssa.Call:
+					if f := staticCallee(x); f != nil && f.Blocks != nil && isRepoFunc(f) {
+						srcFns[f] = true
+						if f.Signature.Params().Len() > 0 {
+							last := x.Call.Args[len(x.Call.Args)-1]
+							if _, ch := fieldChain(last); len(ch) == 0 || ch[len(ch)-1].Name() != "Name" {
+								keyedByName = false
+							}
+						}
+					}
+				}
+			}
 			for _, fn := range w.RepoFuncs() {
 				allInstrs(fn, func(in ssa.Instruction) {
 					st, ok := in.(*ssa.Store)
@@ -216,109 +258,166 @@ func propC11(c *Ctx) {
 						return
 					}
 					cnt++
-					call, isCall := st.Val.(*ssa.Call)
-					okSrc := isCall && ti != nil && staticCallee(call) == ti && fnName(fn) == "(*dig.Integration).setCols"
-					if okSrc {
-						// argument is the Name of the input stored in the same literal
-						_, ch := fieldChain(call.Call.Args[1])
-						okSrc = len(ch) > 0 && ch[len(ch)-1].Name() == "Name"
-					}
-					if !okSrc {
+					if fnName(fn) != "(*dig.Integration).setCols" {
 						bad = append(bad, fnName(fn)+" at "+w.Pos(st.Pos()))
 					}
+					origins(st.Val, 0)
 				})
 			}
-			c.Check("R11.7", "coldef.topic/from-topicIndex", sc.Pos(), cnt > 0 && len(bad) == 0, fmt.Sprintf("coldef.topic is stored only in setCols from Event.topicIndex(input.Name); offenders: %v", bad))
-			if ti != nil {
-				// topicIndex: ranges over e.Inputs (all of them), the counter starts at 1 and is incremented exactly for Indexed inputs,
-				// and the returned value on a name match is that counter
-				fInputs := w.Field("dig", "Event", "Inputs")
-				fIndexed := w.Field("dig", "Input", "Indexed")
-				startsAt1, incIndexed, overAll := false, false, false
-				allInstrs(ti, func(in ssa.Instruction) {
-					switch x := in.(type) {
-					case *ssa.Phi:
-						if !isIntType(x.Type()) {
-							return
+			// helpers of those functions on the same event (numIndexed, …)
+			for changed := true; changed; {
+				changed = false
+				for f := range srcFns {
+					for _, ci := range callsIn(f) {
+						if h := staticCallee(ci); h != nil && h.Blocks != nil && isRepoFunc(h) && !srcFns[h] && h.Signature.Recv() != nil && repoNamedIs(h.Signature.Recv().Type(), "dig", "Event") {
+							srcFns[h] = true
+							changed = true
 						}
-						for _, e := range x.Edges {
-							if k, ok := constInt(e); ok {
-								if _, isC := e.(*ssa.Const); isC && k == 1 {
-									startsAt1 = true
+					}
+				}
+			}
+			c.Check("R11.7", "coldef.topic/stored-in-setCols-keyed-by-name", sc.Pos(), cnt > 0 && len(bad) == 0 && len(srcFns) > 0 && keyedByName,
+				fmt.Sprintf("coldef.topic is stored only in setCols, from a function of the event looked up by the input's Name; offenders: %v", bad))
+			overAll, testsIndexed, usesSelection := len(srcFns) > 0, false, ""
+			for f := range srcFns {
+				if f.Signature.Recv() == nil || !repoNamedIs(f.Signature.Recv().Type(), "dig", "Event") {
+					overAll = false
+				}
+				withClosures(f, func(g *ssa.Function) {
+					allInstrs(g, func(in ssa.Instruction) {
+						switch x := in.(type) {
+						case *ssa.IndexAddr:
+							// element of a []dig.Input: the slice must be e.Inputs
+							if sl, ok := x.X.Type().Underlying().(*types.Slice); ok && repoNamedIs(sl.Elem(), "dig", "Input") {
+								if _, ch := fieldChain(x.X); !(len(ch) == 1 && ch[0] == fInputs) {
+									overAll = false
+								}
+							}
+						case *ssa.Call:
+							if cal := staticCallee(x); cal != nil && (cal.Name() == "Selected" || cal.Name() == "hasSelect") {
+								usesSelection = cal.Name() + "()"
+							}
+						}
+						if v, ok := in.(ssa.Value); ok {
+							if lf, _ := fieldOf(v); lf == fColumn {
+								usesSelection = "Input.Column"
+							}
+							if lf, _ := loadedField(v); lf == fIndexed {
+								if t, fl := boolEdges(v); len(t)+len(fl) > 0 {
+									testsIndexed = true
 								}
 							}
 						}
-					case *ssa.BinOp:
-						if x.Op != token.ADD {
-							return
-						}
-						if k, ok := constInt(x.Y); !ok || k != 1 {
-							return
-						}
-						if ph, isPhi := x.X.(*ssa.Phi); !isPhi || isInduction(ph) && false {
-							return
-						}
-						for _, col := range loopCollections(x) {
-							if _, ch := fieldChain(col); len(ch) == 1 && ch[0] == fInputs {
-								overAll = true
-							}
-						}
-						// executed only for indexed inputs: skipped on the !Indexed edge
-						var idxT []Edge
-						allInstrs(ti, func(y ssa.Instruction) {
-							if v, ok := y.(ssa.Value); ok {
-								if _, ch := fieldChain(v); len(ch) == 1 && ch[0] == fIndexed {
-									if _, isLoad := v.(*ssa.UnOp); isLoad {
-										t, _ := boolEdges(v)
-										idxT = append(idxT, t...)
-									}
-								}
-							}
-						})
-						isRangeIdx := false
-						if ph, ok := x.X.(*ssa.Phi); ok {
-							for _, e := range ph.Edges {
-								if k, ok := constInt(e); ok && k == -1 {
-									isRangeIdx = true
-								}
-							}
-						}
-						if len(idxT) > 0 && guardedByEdges(ti, x, idxT) && !isRangeIdx {
-							incIndexed = true
-							// ... and for EVERY indexed input that is not the one looked for: no other condition
-							for d := x.Block().Idom(); d != nil; d = d.Idom() {
-								iff, ok := terminator(d).(*ssa.If)
-								if !ok {
-									continue
-								}
-								okCond := false
-								if bo, ok := iff.Cond.(*ssa.BinOp); ok {
-									if bo.Op == token.LSS && isInduction(bo.X) {
-										okCond = true // loop condition
-									}
-									if bo.Op == token.EQL || bo.Op == token.NEQ {
-										_, c1 := fieldChain(bo.X)
-										if len(c1) == 1 && c1[0].Name() == "Name" {
-											okCond = true // the name match that returns
-										}
-									}
-								}
-								if _, ch := fieldChain(iff.Cond); len(ch) == 1 && ch[0] == fIndexed {
-									okCond = true
-								}
-								if !okCond {
-									incIndexed = false
-								}
-							}
+					})
+				})
+			}
+			// where the position is a counter returned on a name match (the per-name form), it starts at 1: topic 0 is the signature hash
+			for f := range srcFns {
+				// only a function that looks one name up (a string parameter compared with Input.Name)
+				perName := false
+				allInstrs(f, func(in ssa.Instruction) {
+					if b, ok := in.(*ssa.BinOp); ok && b.Op == token.EQL {
+						_, cx := fieldChain(b.X)
+						_, cy := fieldChain(b.Y)
+						_, px := stripConv(b.X).(*ssa.Parameter)
+						_, py := stripConv(b.Y).(*ssa.Parameter)
+						if (len(cx) > 0 && cx[len(cx)-1].Name() == "Name" && py) || (len(cy) > 0 && cy[len(cy)-1].Name() == "Name" && px) {
+							perName = true
 						}
 					}
 				})
-				c.Check("R11.7", "Event.topicIndex/counts-all-indexed-inputs", ti.Pos(), startsAt1 && incIndexed && overAll, fmt.Sprintf("position counter starts at 1 (%v), is incremented for Indexed inputs only (%v), over all of e.Inputs (%v)", startsAt1, incIndexed, overAll))
-			} else {
-				c.Violation("R11.7", "Event.topicIndex", sc.Pos(), "Event.topicIndex not found")
+				if !perName {
+					continue
+				}
+				allInstrs(f, func(in ssa.Instruction) {
+					ph, ok := in.(*ssa.Phi)
+					if !ok || !isIntType(ph.Type()) {
+						return
+					}
+					var init *ssa.Const
+					inc, other := false, false
+					for _, e := range ph.Edges {
+						if k, isC := e.(*ssa.Const); isC {
+							if init != nil {
+								other = true
+							}
+							init = k
+							continue
+						}
+						if e == ssa.Value(ph) {
+							continue
+						}
+						if b, isB := e.(*ssa.BinOp); isB && b.Op == token.ADD && b.X == ssa.Value(ph) {
+							if n, okc := constInt(b.Y); okc && n == 1 {
+								inc = true
+								continue
+							}
+						}
+						other = true
+					}
+					if init == nil || !inc || other {
+						return
+					}
+					returned := false
+					for _, r := range returnsOf(f) {
+						if stripConv(returnValues(r)[0]) == ssa.Value(ph) {
+							returned = true
+						}
+					}
+					if !returned {
+						return
+					}
+					n, _ := constInt(init)
+					c.Check("R11.7", "topic-position/counter-starts-at-1", ph.Pos(), n == 1, "the position counter returned for a name starts at 1 (topic 0 is the event's signature hash)")
+				})
 			}
+			c.Check("R11.7", "topic-position/counts-all-indexed-inputs", sc.Pos(), overAll && testsIndexed && usesSelection == "",
+				fmt.Sprintf("the topic position is computed over e.Inputs only (%v), testing Indexed (%v), without looking at what is selected (%s)", overAll, testsIndexed, usesSelection))
 		} else {
 			c.Violation("R11.7", "coldef.topic", sc.Pos(), "column definitions do not record the topic position of an indexed input")
+		}
+	}
+
+	// ---- R11.8 ----------------------------------------------------------
+	c.Rule("R11.8", "the row builder's context never points at a loop variable that all iterations share", 1)
+	{
+		// `for _, ta := range actions { lwc.ta = &ta }` under go.mod's language version (< 1.22)
+		// leaves every row of the transaction pointing at ONE variable: columns read through the
+		// pointer after the loop moved on (trace_action_value, …) take the last element's value
+		ins := w.Fn("dig", "Integration.Insert")
+		n := 0
+		withClosures(ins, func(f *ssa.Function) {
+			allInstrs(f, func(in ssa.Instruction) {
+				st, ok := in.(*ssa.Store)
+				if !ok {
+					return
+				}
+				al, isAl := stripConv(st.Val).(*ssa.Alloc)
+				if !isAl {
+					return
+				}
+				if _, toField := st.Addr.(*ssa.FieldAddr); !toField {
+					return
+				}
+				n++
+				// the variable is (re)assigned inside a loop that does not re-create it
+				shared := false
+				for _, ref := range *al.Referrers() {
+					w2, isSt := ref.(*ssa.Store)
+					if !isSt || w2.Addr != ssa.Value(al) {
+						continue
+					}
+					// an iteration can follow another one without the variable being created anew
+					if again, _ := reach(siteOf(w2), isInstr(w2), newCuts().addInstr(al)); again {
+						shared = true
+					}
+				}
+				c.Check("R11.8", fmt.Sprintf("Insert/context-pointer#%d", n), st.Pos(), !shared,
+					"the address kept in the row builder's context is that of the element itself or of a per-iteration copy, not of a variable every iteration overwrites")
+			})
+		})
+		if n == 0 {
+			c.OK("R11.8", "Insert/context-pointers", ins.Pos(), "the row builder's context holds element addresses only")
 		}
 	}
 
